@@ -9,6 +9,7 @@
 #define CAP 8
 #endif
 #include "rep.h"
+#include "constants.h"
 int* gp_val; long long* gp_elem;
 int g_k, g_p, v_g, v_exp, g_q, g_r, g_size, g_bsize; long long v_cell, v_cellb;
 #include "sparse_alg_c.h"
@@ -44,8 +45,9 @@ int g_k, g_p, v_g, v_exp, g_q, g_r, g_size, g_bsize; long long v_cell, v_cellb;
 int w_vb(int* val, int dim, long long* elem, int memsize, int* memused, int xx, const int* ps)
 __CPROVER_requires(DVWF(val, dim))
 __CPROVER_requires(__CPROVER_is_fresh(memused, sizeof(int)) && SVWF(elem, memsize, *memused) && g_size == *memused)
-__CPROVER_requires(REP_ALL(P_IDXOK))
-__CPROVER_requires(__CPROVER_is_fresh(ps, (CAP + 1) * sizeof(int)) && ps[*memused] == 0 && REP_ALL(P_PS))
+REQ_EACH(P_IDXOK)
+__CPROVER_requires(__CPROVER_is_fresh(ps, (CAP + 1) * sizeof(int)) && ps[*memused] == 0)
+REQ_EACH(P_PS)
 __CPROVER_requires(0 <= g_k && g_k < dim && v_g == val[g_k])
 __CPROVER_assigns(gp_val, gp_elem, *memused)
 __CPROVER_ensures(__CPROVER_return_value == ps[0] && *memused == g_size && val[g_k] == v_g)
@@ -54,8 +56,9 @@ __CPROVER_ensures(__CPROVER_return_value == ps[0] && *memused == g_size && val[g
 int w_vb(int* val, int dim, long long* elem, int memsize, int* memused, int xx, const int* ps)
 __CPROVER_requires(DVWF(val, dim))
 __CPROVER_requires(__CPROVER_is_fresh(memused, sizeof(int)) && SVWF(elem, memsize, *memused) && g_size == *memused)
-__CPROVER_requires(REP_ALL(P_IDXOK))
-__CPROVER_requires(0 <= g_k && g_k < dim && v_g == val[g_k] && -1 <= g_p && g_p < *memused && REP_ALL(P_OCC))
+REQ_EACH(P_IDXOK)
+__CPROVER_requires(0 <= g_k && g_k < dim && v_g == val[g_k] && -1 <= g_p && g_p < *memused)
+REQ_EACH(P_OCC)
 __CPROVER_requires(v_exp == (g_p < 0 ? ABSENT(v_g) : EXPECT(v_g, VAL(elem, g_p))))
 __CPROVER_requires(*memused == 0 || (0 <= g_q && g_q < *memused && v_cell == elem[g_q]))
 __CPROVER_assigns(gp_val, gp_elem, *memused, __CPROVER_object_whole(val))
@@ -78,7 +81,7 @@ void h_vb(void)
 #define P_BOCC(k)   (!((k) < *bused) || ((IDX(b, k) == g_k) == ((k) == g_p)))
 #define PAIR_B(i, j) (!((i) < (j) && (j) < *bused) || IDX(b, i) != IDX(b, j))
 #define ROW_B(i) REP_ALLB(PAIR_B, i)
-void w_sv(long long* a, int amax, int* aused, long long* b, int bmax, int* bused, int* w, int dim, int xx)
+int w_sv(long long* a, int amax, int* aused, long long* b, int bmax, int* bused, int* w, int dim, int xx, const int* ps)
 __CPROVER_requires(__CPROVER_is_fresh(aused, sizeof(int)) && SVWF(a, amax, *aused) && g_size == *aused)
 __CPROVER_requires(__CPROVER_is_fresh(bused, sizeof(int)) && SVWF(b, bmax, *bused) && g_bsize == *bused)
 __CPROVER_requires(DVWF(w, dim))
@@ -90,8 +93,10 @@ __CPROVER_ensures(*aused == g_size && IDX(a, g_q) == HI32(v_cell) && VAL(a, g_q)
 #elif SV_OP == 2
 /* a = b (different objects, max() >= b.size() asserted by the real code, indices of b pairwise different): the dense
  * views agree at every index; exactly the nonzeros of b are stored; b is unchanged */
-__CPROVER_requires(amax >= *bused && REP_ALL(ROW_B))
-__CPROVER_requires(-1 <= g_p && g_p < *bused && REP_ALL(P_BOCC) && v_g == (g_p < 0 ? 0 : VAL(b, g_p)))
+__CPROVER_requires(amax >= *bused)
+REQ_EACH(ROW_B)
+__CPROVER_requires(-1 <= g_p && g_p < *bused && v_g == (g_p < 0 ? 0 : VAL(b, g_p)))
+REQ_EACH(P_BOCC)
 __CPROVER_requires(*bused == 0 || (0 <= g_r && g_r < *bused && v_cellb == b[g_r]))
 __CPROVER_assigns(*aused, *bused, __CPROVER_object_whole(a))
 __CPROVER_ensures(SDENSE(a, *aused, g_k) == v_g)
@@ -108,7 +113,8 @@ __CPROVER_ensures(!(0 <= g_q && g_q < g_r && g_r < *aused) || IDX(a, g_q) != IDX
 #elif SV_OP == 4
 /* a.add(b): the nonzeros of b are appended behind the old nonzeros (which stay in place); dense view (first match): an
  * index stored in a keeps a's value, any other index gets b's value */
-__CPROVER_requires(*aused + *bused <= amax && REP_ALL(ROW_B))
+__CPROVER_requires(*aused + *bused <= amax)
+REQ_EACH(ROW_B)
 __CPROVER_requires(v_g == (SIN(a, *aused, g_k) ? SDENSE(a, *aused, g_k) : SDENSE(b, *bused, g_k)))
 __CPROVER_requires(*aused == 0 || (0 <= g_q && g_q < *aused && v_cell == a[g_q]))
 __CPROVER_requires(*bused == 0 || (0 <= g_r && g_r < *bused && v_cellb == b[g_r]))
@@ -116,14 +122,50 @@ __CPROVER_assigns(*aused, *bused, __CPROVER_object_whole(a))
 __CPROVER_ensures(SDENSE(a, *aused, g_k) == v_g)
 __CPROVER_ensures(*aused == g_size + SNNZ(b, g_bsize) && (g_size == 0 || a[g_q] == v_cell))
 __CPROVER_ensures(*bused == g_bsize && (g_bsize == 0 || b[g_r] == v_cellb))
+#elif SV_OP == 5
+/* a.sort(): increasing indices, the same nonzeros (every old cell is still there, size unchanged): dense view unchanged */
+#define P_AOCC(k)   (!((k) < *aused) || ((IDX(a, k) == g_k) == ((k) == g_p)))
+#define PAIR_A(i, j) (!((i) < (j) && (j) < *aused) || IDX(a, i) != IDX(a, j))
+#define ROW_A(i) REP_ALLB(PAIR_A, i)
+#define CEQ1(k, e, n, c) (((k) < (n)) && (e)[k] == (c))
+REQ_EACH(ROW_A)
+__CPROVER_requires(-1 <= g_p && g_p < *aused && v_g == (g_p < 0 ? 0 : VAL(a, g_p)))
+REQ_EACH(P_AOCC)
+__CPROVER_requires(*aused == 0 || (0 <= g_q && g_q < *aused && v_cell == a[g_q]))
+__CPROVER_assigns(*aused, *bused, __CPROVER_object_whole(a))
+__CPROVER_ensures(*aused == g_size && SDENSE(a, *aused, g_k) == v_g)
+__CPROVER_ensures(!(0 <= g_r && g_r < *aused - 1) || IDX(a, g_r) < IDX(a, g_r + 1))
+__CPROVER_ensures(g_size == 0 || CELLS(||, CEQ1, a, *aused, v_cell))
+#elif SV_OP == 6
+/* maxAbs(): max(0, max_k |value(k)|): an upper bound of every |value| that is attained (or 0) */
+#define AEQ1(k, e, n, r) (((k) < (n)) && ABS(VAL(e, k)) == (r))
+__CPROVER_requires(*aused == 0 || (0 <= g_q && g_q < *aused && v_cell == a[g_q]))
+__CPROVER_assigns(*aused, *bused)
+__CPROVER_ensures(*aused == g_size && (g_size == 0 || (a[g_q] == v_cell && __CPROVER_return_value >= ABS(LO32(v_cell)))))
+__CPROVER_ensures(__CPROVER_return_value >= 0 && (__CPROVER_return_value == 0 || CELLS(||, AEQ1, a, g_size, __CPROVER_return_value)))
+#elif SV_OP == 7
+/* minAbs(): min(infinity, min_k |value(k)|) */
+#define AEQ1(k, e, n, r) (((k) < (n)) && ABS(VAL(e, k)) == (r))
+#define INFTY __CPROVER_uninterpreted_embed(SOPLEX_DEFAULT_INFINITY)
+__CPROVER_requires(*aused == 0 || (0 <= g_q && g_q < *aused && v_cell == a[g_q]))
+__CPROVER_assigns(*aused, *bused)
+__CPROVER_ensures(*aused == g_size && (g_size == 0 || (a[g_q] == v_cell && __CPROVER_return_value <= ABS(LO32(v_cell)))))
+__CPROVER_ensures(__CPROVER_return_value <= INFTY && (__CPROVER_return_value == INFTY || CELLS(||, AEQ1, a, g_size, __CPROVER_return_value)))
+#elif SV_OP == 8
+/* length2(): sum over k = 0 .. size()-1 of value(k) * value(k): ps[0] = 0, ps[k+1] = ps[k] + value[k] * value[k] */
+#define P_PS2(k) (!((k) < *aused) || ps[(k) + 1] == ADD(ps[k], MUL(VAL(a, k), VAL(a, k))))
+__CPROVER_requires(__CPROVER_is_fresh(ps, (CAP + 1) * sizeof(int)) && ps[0] == 0)
+REQ_EACH(P_PS2)
+__CPROVER_assigns(*aused, *bused)
+__CPROVER_ensures(*aused == g_size && __CPROVER_return_value == ps[g_size])
 #endif
 ;
 void h_sv(void)
 {
-   long long* a; int amax; int* aused; long long* b; int bmax; int* bused; int* w; int dim; int xx;
+   long long* a; int amax; int* aused; long long* b; int bmax; int* bused; int* w; int dim; int xx; const int* ps;
    g_k = nondet_int(); g_p = nondet_int(); v_g = nondet_int(); g_q = nondet_int(); g_r = nondet_int(); g_size = nondet_int();
    g_bsize = nondet_int(); v_cell = nondet_ll(); v_cellb = nondet_ll();
-   w_sv(a, amax, aused, b, bmax, bused, w, dim, xx);
+   w_sv(a, amax, aused, b, bmax, bused, w, dim, xx, ps);
    CANARY();
 }
 #endif
